@@ -198,6 +198,9 @@ type Runner struct {
 	// HookBeforeNIs registers the post-change hook before the non-default
 	// instances are created (as server.New does) when true.
 	HookBeforeNIs bool
+	// NoChecks builds the RIB with DisableRIBCheckFn: the reference checks are
+	// off, which the specification does not model; see UncheckedSink.
+	NoChecks bool
 
 	r       *rib.RIB
 	mirror  *Mirror
@@ -431,6 +434,9 @@ func (rn *Runner) step(in Input) error {
 		if !in.Fwd {
 			opts = append(opts, rib.DisableForwardReferences())
 		}
+		if rn.NoChecks {
+			opts = append(opts, rib.DisableRIBCheckFn())
+		}
 		rn.r = rib.New(DefaultNI, opts...)
 		rn.mirror = NewMirror()
 		rn.ops = map[*spb.AFTOperation]abs.Op{}
@@ -548,3 +554,20 @@ func (rn *Runner) Run(ins []Input) error {
 
 // Close finishes the last segment.
 func (rn *Runner) Close() { rn.finish() }
+
+// UncheckedSink rewrites the trace of a run with the reference checks off: the
+// specification does not say what such a RIB holds, only that the fold of the
+// post-change notifications equals it (MirrorIsRib), so every call becomes an
+// "unchecked" event that carries the logged state and nothing else.
+type UncheckedSink struct{ To Sink }
+
+func (u UncheckedSink) Emit(e Event) {
+	switch e["ev"] {
+	case "reset", "panic", "hang", "hookstall":
+		u.To.Emit(e)
+	default:
+		if st, ok := e["st"]; ok {
+			u.To.Emit(Event{"ev": "unchecked", "of": e["ev"], "st": st})
+		}
+	}
+}
